@@ -1,4 +1,5 @@
 import Gk.DrvRepo
+import Gk.DrvHook
 open Gk
 
 /-- `gkdriver <family>`: reads trace lines on stdin, prints `L<n> DIFF …` / `L<n> MON …` lines and a
@@ -18,8 +19,24 @@ partial def loopRepo (h : IO.FS.Stream) (s : DrvRepo.S) (n hist nt bad : Nat) : 
     for o in outs do IO.println s!"L{n + 1} {o}"
     loopRepo h s' (n + 1) hist nt (bad + outs.length)
 
+partial def loopHook (h : IO.FS.Stream) (s : DrvHook.S) (n hist nt bad : Nat) : IO Unit := do
+  let line ← h.getLine
+  if line.isEmpty then
+    IO.println s!"SUMMARY family=hook lines={n} histories={hist} nontrivial={nt} ops={s.ops} flagged={bad}"
+    return
+  let toks := Proto.tokens line
+  match toks with
+  | [] => loopHook h s (n + 1) hist nt bad
+  | ["end"] => loopHook h s (n + 1) (hist + 1) (nt + (if s.nontrivial then 1 else 0)) bad
+  | _ =>
+    let (req, resp) := Proto.splitArrow toks
+    let (s', outs) := DrvHook.stepLine s req resp
+    for o in outs do IO.println s!"L{n + 1} {o}"
+    loopHook h s' (n + 1) hist nt (bad + outs.length)
+
 def main (args : List String) : IO UInt32 := do
   let stdin ← IO.getStdin
   match args with
   | ["repo"] => loopRepo stdin {} 0 0 0 0; return 0
+  | ["hook"] => loopHook stdin {} 0 0 0 0; return 0
   | _ => IO.eprintln "usage: gkdriver repo"; return 2
